@@ -733,7 +733,7 @@ def obligations(tier: str) -> list[dict]:
                                  'rf': 'always', 'behs': [B_ID]}, T)
         for o in outers:
             if o == 'dowhile':
-                for gname, g in (('G1', G1), ('G2', G2), ('G3', G3)):
+                for gname, g in (('G1', G1), ('G2', G2), ('pardo', ['pardo']), ('pardof', ['pardof'])):
                     ob('ctl/dowhile/%s' % gname, 'ctl', {'outer': o, 'preds': ['s', 'n'], 'inner': g}, T)
             else:
                 ob('ctl/%s' % o, 'ctl', {'outer': o, 'preds': ['s', 'n']}, T)
